@@ -81,6 +81,8 @@ def make_matrix(desc):
         if not cplx:
             A = np.ascontiguousarray(A.real)
         sp = desc.get("sparse")
+        if sp in ("csc_full", "csr_full"):
+            return full_structure(A, sp[:3])
         return sps.csc_matrix(A) if sp == "csc" else (sps.csr_matrix(A) if sp == "csr" else A)
     symmetric = cls in ("sym", "spd", "herm", "hpd", "csym")
     pat = desc.get("pattern", "full")
@@ -123,7 +125,18 @@ def make_matrix(desc):
         return sps.csc_matrix(A)
     if sp == "csr":
         return sps.csr_matrix(A)
+    if sp in ("csc_full", "csr_full"):
+        return full_structure(A, sp[:3])
     return A
+
+
+def full_structure(A, fmt):
+    """ Sparse matrix that stores *every* entry, zeros included: the sparsity structure (indptr/indices) is identical for
+    all matrices of one size, as in FE assembly on a fixed mesh where void elements contribute stored zeros. """
+    n, m = A.shape
+    if fmt == "csc":
+        return sps.csc_matrix((np.asarray(A).T.ravel().copy(), np.tile(np.arange(n), m), np.arange(0, n * m + 1, n)), shape=(n, m))
+    return sps.csr_matrix((np.asarray(A).ravel().copy(), np.tile(np.arange(m), n), np.arange(0, n * m + 1, m)), shape=(n, m))
 
 
 def todense(A):
